@@ -219,6 +219,11 @@ def _gen_h2_request(tape: Tape, tag: bytes, big: bool) -> tuple:
         # request trailers: END_STREAM rides on a trailing HEADERS frame instead of the last DATA frame
         "trailers": [(b"x-req-trailer", b"t")] if (body and tape.chance(1, 5, "h2.reqtrailers")) else None,
     }
+    if len(body) >= 300 and tape.chance(1, 8, "h2.heavypad"):
+        # heavily padded upload: several hundred small DATA frames with the largest padding, so that the padding
+        # alone is worth more than a 64 KiB window (the credit the server returns must count it)
+        spec["pad"] = 255
+        spec["frame_sizes"] = [max(1, len(body) // 320)] * 400
     return spec, exp
 
 
